@@ -394,6 +394,43 @@ func c06Files(c *Ctx) {
 					k.Failf("file-gz", "%s.File(*.gz) differs from Reader on the uncompressed bytes:\n File   %s\n Reader %s", f, traceString(got), traceString(ref))
 				}
 				k.Count("file_gz", 1)
+				// The same two files reached by other names: a symbolic link, a chain of two links, a hard link, a path
+				// with "./", "//" and ".." in it, a name with blanks and non-ASCII letters, a read-only file. (Links to
+				// the compressed file keep the .gz ending, which is what tells File to decompress.)
+				if k.Idx%2 == 0 {
+					sub := filepath.Join(dir, fmt.Sprintf("d%d", k.Idx))
+					os.Mkdir(sub, 0o755)
+					defer os.RemoveAll(sub)
+					for _, tgt := range []struct{ path, ext string }{{plain, cd.ext}, {gz, cd.ext + ".gz"}} {
+						sym := filepath.Join(sub, "link"+tgt.ext)
+						sym2 := filepath.Join(sub, "link to link"+tgt.ext)
+						hard := filepath.Join(sub, "hard"+tgt.ext)
+						odd := filepath.Join(sub, "my reads \u00e9\u4e2d (1)"+tgt.ext)
+						names := map[string]string{}
+						if os.Symlink(tgt.path, sym) == nil {
+							names["a symbolic link"] = sym
+							if os.Symlink(filepath.Base(sym), sym2) == nil {
+								names["a relative symbolic link to a symbolic link"] = sym2
+							}
+						}
+						if os.Link(tgt.path, hard) == nil {
+							names["a hard link"] = hard
+						}
+						if data, err := os.ReadFile(tgt.path); err == nil && os.WriteFile(odd, data, 0o400) == nil {
+							names["a read-only file whose name has blanks and non-ASCII letters"] = odd
+						}
+						names["a path with ./, // and .. in it"] = sub + "/.//../" + filepath.Base(sub) + "/../" + filepath.Base(tgt.path)
+						for what, p := range names {
+							got, over := collect(cd.file(p), len(x)+8)
+							if over || !sameTrace(got, ref) {
+								k.Input("path", p)
+								k.Failf("file-path-variant", "%s.File on %s (%q) differs from Reader on the file's bytes:\n File   %s\n Reader %s", f, what, p, traceString(got), traceString(ref))
+								break
+							}
+							k.Count("file_path_variants", 1)
+						}
+					}
+				}
 				// ONE File iterator value ranged again and again (after a stopped run and
 				// after a complete one): File(path) names the file, so every range over it
 				// yields what Reader yields on the file's bytes.
